@@ -352,7 +352,68 @@ func genC06(g *Gen) {
 			} else {
 				g.Count("step:while-serving-leader")
 			}
-			switch g.R.Pick(wProp, wStored, wQC, wAck, 8, 5, 5, 2, wMeta, 1) {
+			switch g.R.Pick(wProp, wStored, wQC, wAck, 8, 5, 5, 2, wMeta, 1, 3, 3) {
+			case 10: // quorum install result (reactor.handleQuorumInstallResult)
+				f := "cur"
+				if g.R.Chance(12) {
+					f = sh.fenceTok(g, "install")
+				}
+				o := "pend"
+				if g.R.Chance(8) {
+					o = strconv.Itoa(g.R.Range(0, 120))
+					g.Count("install:other-op")
+				}
+				auth := 1
+				if g.R.Chance(10) {
+					auth = g.R.Pick(1, 0, 1) // 0 or 2
+					g.Count("install:bad-authority-or-nil-result")
+				}
+				e := 0
+				if g.R.Chance(8) {
+					e = g.R.Range(1, 4)
+					g.Count("install:error-result")
+				}
+				k := g.R.Pick(40, 30, 20, 10)
+				leo, hw := "l", "h"
+				if k > 0 {
+					leo = fmt.Sprintf("l+%d", k)
+				}
+				switch g.R.Pick(30, 30, 25, 5, 5, 5) {
+				case 1:
+					hw = "h+1" // may exceed the LEO (rejected) when HW = LEO and k = 0
+				case 2:
+					hw = "l" // everything up to the old LEO is committed
+				case 3:
+					hw = fmt.Sprintf("l+%d", k+1+g.R.Intn(3))
+					g.Count("install:hw-above-leo")
+				case 4: // recovery returns less than the local state (see DESIGN §8.1)
+					hw = fmt.Sprintf("h-%d", g.R.Range(1, 3))
+					g.Count("install:regressing-hw")
+				case 5:
+					leo, hw = fmt.Sprintf("l-%d", g.R.Range(1, 3)), "0"
+					g.Count("install:regressing-leo")
+				}
+				g.Op("install", "%s %s %d %s %s %d", f, o, auth, leo, hw, e)
+				if f == "cur" && o == "pend" && auth == 1 && e == 0 && strings.HasPrefix(leo, "l+") {
+					sh.leo += k
+				}
+				continue
+			case 11: // store checkpoint result (reactor.handleStoreCheckpointResult)
+				f := "cur"
+				if g.R.Chance(15) {
+					f = sh.fenceTok(g, "ckres")
+				}
+				wr, e := 1, 0
+				if g.R.Chance(7) {
+					wr = 0
+				}
+				if g.R.Chance(8) {
+					e = g.R.Range(1, 4)
+				}
+				v := []string{"h", "h", "h", "m", "m", "c", "h-1", "h-3"}[g.R.Intn(8)]
+				g.Count("ckres:value=" + v)
+				g.Op("ckres", "%s %d %s %d", f, wr, v, e)
+				continue
 			case 0:
 				sh.genPropose(g)
 			case 1:
@@ -466,6 +527,10 @@ type c06Runner struct {
 	rig    *reactor.VerifAckRig
 	inited bool
 	fresh  bool // no op executed yet
+	// highest HW observed since the metadata fence (epoch, leaderEpoch) last changed:
+	// the largest value a checkpoint submitted under this fence can carry
+	maxHW          uint64
+	fenceE, fenceL uint64
 }
 
 const c06Key = ch.ChannelKey("k1")
@@ -764,6 +829,56 @@ func c06Records(op, n int) []ch.Record {
 }
 
 func (r *c06Runner) Step(op string) string {
+	out := r.step0(op)
+	if r.st.Epoch != r.fenceE || r.st.LeaderEpoch != r.fenceL {
+		r.fenceE, r.fenceL, r.maxHW = r.st.Epoch, r.st.LeaderEpoch, r.st.HW
+	} else if r.st.HW > r.maxHW {
+		r.maxHW = r.st.HW
+	}
+	return out
+}
+
+// c06Val resolves `l` (LEO) `h` (HW) `c` (CheckpointHW) `m` (max HW in this fence),
+// each optionally followed by -K or +K, or an absolute number.
+func (r *c06Runner) val(tok string) (uint64, bool) {
+	if tok == "" {
+		return 0, false
+	}
+	var base uint64
+	rest := tok[1:]
+	switch tok[0] {
+	case 'l':
+		base = r.st.LEO
+	case 'h':
+		base = r.st.HW
+	case 'c':
+		base = r.st.CheckpointHW
+	case 'm':
+		base = r.maxHW
+	default:
+		n, ok := atoi(tok)
+		if !ok || n < 0 {
+			return 0, false
+		}
+		return uint64(n), true
+	}
+	if rest == "" {
+		return base, true
+	}
+	k, ok := atoi(rest[1:])
+	if !ok || k < 0 || (rest[0] != '+' && rest[0] != '-') {
+		return 0, false
+	}
+	if rest[0] == '+' {
+		return base + uint64(k), true
+	}
+	if uint64(k) > base {
+		return 0, true
+	}
+	return base - uint64(k), true
+}
+
+func (r *c06Runner) step0(op string) string {
 	f := strings.Fields(op)
 	if len(f) == 0 {
 		return "bad-op"
@@ -973,6 +1088,42 @@ func (r *c06Runner) Step(op string) string {
 		}
 		err, replies := r.rig.PullAck(ch.NodeID(fo), uint64(off))
 		return r.plain(c06ErrName(err), c06RigReplies(replies))
+	case "install":
+		// install <fence> <op|pend> <auth> <leo> <hw> <err>
+		if len(f) != 7 {
+			return "bad-op"
+		}
+		opTok := f[2]
+		if opTok == "pend" {
+			opTok = strconv.Itoa(int(reactor.VerifInstallOpID))
+		}
+		fence, ok := r.fence(f[1], opTok)
+		auth, ok1 := atoi(f[3])
+		leo, ok2 := r.val(f[4])
+		hw, ok3 := r.val(f[5])
+		e, ok4 := atoi(f[6])
+		if !(ok && ok1 && ok2 && ok3 && ok4) || auth < 0 || auth > 2 || e < 0 || f[2] == "cur" {
+			return "bad-op"
+		}
+		consumed, err := r.rig.QuorumInstallResult(fence, auth, leo, hw, c06ErrOf(e))
+		if !consumed {
+			return r.plain("ignored", "-")
+		}
+		return r.plain(c06ErrName(err), "-")
+	case "ckres":
+		// ckres <fence> <withResult 0|1> <value> <err>
+		if len(f) != 5 {
+			return "bad-op"
+		}
+		fence, ok := r.fence(f[1], "77")
+		wr, ok1 := atoi(f[2])
+		v, ok2 := r.val(f[3])
+		e, ok3 := atoi(f[4])
+		if !(ok && ok1 && ok2 && ok3) || wr < 0 || wr > 1 || e < 0 {
+			return "bad-op"
+		}
+		r.rig.StoreCheckpointResult(fence, wr == 1, v, c06ErrOf(e))
+		return r.plain("-", "-")
 	case "cancel":
 		if len(f) != 2 {
 			return "bad-op"
